@@ -1088,7 +1088,9 @@ theorem concat_refuses_foreign (m0 : Matrix) (rest : List Matrix) (ht : m0.taxa 
     have := (concat_ok_iff m0 rest ht).mp ⟨r, hres⟩ m hm
     exact absurd this.1 hns
 
-/-- (a) which name each recorded subset receives, and which span: exactly `namedSpans` -/
+/-- (a) which name each recorded subset receives, and which span: exactly `namedSpans`.  `namedSpans` is the loop's own
+    subset bookkeeping isolated from rows and guards (a projection of the loop, not an independent specification); the
+    content about the names is in `freeName_first`, `concat_labels_kept`, `concat_names_distinct` -/
 theorem concat_subset_labels (ms : List Matrix) (r : Matrix) (h : concatenate ms = .ok r) :
     r.subs = namedSpans [] 0 0 ms := by
   cases ms with
@@ -1867,7 +1869,9 @@ theorem fromStreams_rows {σ : Type} (parse : σ → Option Matrix) (streams : L
 
 /-! ### loop measures, explicitly -/
 
-/-- `fill`'s `while len(v) < size`: the measure `size - len(v)` drops by exactly one per round … -/
+/-- arithmetic of `fill`'s loop measure: one round of the body (`append` / `insert(0, …)`, the expression `padLoop`
+    recurses on) lowers `size - len(v)` by exactly one.  The statement is about that body expression, not about `padLoop`
+    itself; `padLoop_iterate` is the statement about the loop -/
 theorem padLoop_measure_step (value : Cell) (size : Nat) (append : Bool) (v : Row) (h : v.length < size) :
     size - (if append then v ++ [value] else value :: v).length + 1 = size - v.length := by
   cases append <;> simp <;> omega
@@ -1908,8 +1912,8 @@ theorem freeFrom_probes_bound (subs : List (Label × List Nat)) (base : Label) :
       exact ⟨j, hj, by omega, by omega, hle⟩
     · exact ⟨i, rfl, Nat.le_refl _, by omega, hle⟩
 
-/-- `export_character_indices`' deletion loop visits each column exactly once: `n` rounds for `n` columns, and the
-    row never grows -/
+/-- `export_character_indices`' deletion loop never lengthens a row (this statement is only the length bound; that the
+    loop makes one round per column is its structural recursion on `n`, and what it leaves is `export_row_spec`) -/
 theorem delLoop_length_le (keep : Nat → Bool) (n : Nat) (v : Row) : (delLoop keep n v).length ≤ v.length := by
   induction n generalizing v with
   | zero => simp [delLoop]
@@ -2195,8 +2199,9 @@ namespace DendroModel.C19
 open DendroModel.C19.Aux
 
 /-- "for all sequences of these operations": every operation of the matrix alphabet takes well-formed matrices to a
-    well-formed matrix (whether it succeeds, refuses, or — `remove_sequences` — stops half-way), so along ANY history
-    the hypotheses of the specifications remain available.  `o` is the other matrix of a binary operation; matrices
+    well-formed matrix (whether it succeeds, refuses, or — `remove_sequences` — stops half-way).  This is the ONE-STEP
+    fact; the induction over a history is `history_wfn`.  `WF` does not contain `m.taxa.Nodup` (constant along a history,
+    see `WFN`), and `hns` (same namespace members) is an assumption the model's `ns` guard does not establish.  `o` is the other matrix of a binary operation; matrices
     over the same namespace see the same namespace members. -/
 theorem wf_preserved (m o : Matrix) (hm : WF m) (ho : WF o) (hns : o.taxa = m.taxa) :
     (∀ f, f ∈ [addSeqs, replaceSeqs, updateSeqs, extendSeqs false, extendSeqs true, extendMatrix] →
@@ -2362,4 +2367,342 @@ end DendroModel.C19
 namespace DendroModel.C19.Aux
 open DendroModel.C19
 example : removeSeqs [1] mA.rows = ([(0, [1, 2])], none) ∧ has 5 [(0, [1, 2])] = false := by decide
+end DendroModel.C19.Aux
+
+/-! ### second audit: exact rows of a concatenation, purity of the `cm[0]` probe, namespace coherence -/
+namespace DendroModel.C19.Aux
+open DendroModel.C19
+
+theorem concatLoop_has (ns : Nat) (taxa : List Taxon) (nseqs : Nat) (t : Taxon) :
+    ∀ (ms : List Matrix) (st st' : CState) (cidx : Nat),
+      concatLoop ns taxa nseqs st cidx ms = .ok st' → (∀ m ∈ ms, (keys m.rows).Nodup) →
+      (has t st.acc = true ∨ ∃ m ∈ ms, has t m.rows = true) → has t st'.acc = true := by
+  intro ms
+  induction ms with
+  | nil =>
+    intro st st' cidx h _ hor
+    simp only [concatLoop, Except.ok.injEq] at h
+    subst h
+    rcases hor with h | ⟨m, hm, _⟩
+    · exact h
+    · cases hm
+  | cons cm rest ih =>
+    intro st st' cidx h hnd hor
+    simp only [concatLoop] at h
+    split at h
+    · cases h
+    · next st1 hstep =>
+      have hacc := (concatStep_ok _ _ _ _ _ _ _ hstep).2.1
+      refine ih st1 st' _ h (fun m hm => hnd m (by simp [hm])) ?_
+      have hspec := extendMatrix_spec st.acc cm.rows (hnd cm (by simp)) t
+      rcases hor with hst | ⟨m, hm, hhas⟩
+      · left
+        rw [hacc, has_eq, hspec]
+        simp only [has_eq, Option.isSome_iff_exists] at hst
+        obtain ⟨a, ha⟩ := hst
+        rw [ha]; cases get? t cm.rows <;> simp
+      · simp only [List.mem_cons] at hm
+        rcases hm with hm | hm
+        · subst hm
+          left
+          rw [hacc, has_eq, hspec]
+          simp only [has_eq, Option.isSome_iff_exists] at hhas
+          obtain ⟨b, hb⟩ := hhas
+          rw [hb]; cases get? t st.acc <;> simp
+        · right; exact ⟨m, hm, hhas⟩
+
+theorem concat_taxa (m0 : Matrix) (rest : List Matrix) (r : Matrix) (h : concatenate (m0 :: rest) = .ok r) :
+    r.taxa = m0.taxa ∧ r.ns = m0.ns := by
+  simp only [concatenate] at h
+  split at h
+  · cases h
+  · simp only [Except.ok.injEq] at h; subst h; exact ⟨rfl, rfl⟩
+
+end DendroModel.C19.Aux
+
+namespace DendroModel.C19
+open DendroModel.C19.Aux
+
+/-- (a) the rows of a concatenation, exactly (no "missing = empty" reading): the result has a row for every taxon of
+    the namespace and for no other taxon, and that row is the concatenation, in argument order, of the taxon's rows in
+    the source matrices.  A zero-width source row contributes nothing but is a row; `none` only outside the namespace. -/
+theorem concat_get? (m0 : Matrix) (rest : List Matrix) (r : Matrix) (h : concatenate (m0 :: rest) = .ok r)
+    (hwf : ∀ m ∈ m0 :: rest, WF m ∧ m.taxa = m0.taxa) (htx : m0.taxa ≠ []) (t : Taxon) :
+    get? t r.rows =
+      if t ∈ m0.taxa then some (((m0 :: rest).map (fun m => rowOf t m.rows)).flatten) else none := by
+  have hnd : ∀ m ∈ m0 :: rest, (keys m.rows).Nodup := fun m hm => (hwf m hm).1.1
+  by_cases ht : t ∈ m0.taxa
+  · simp only [ht, if_true]
+    have h0 : has t m0.rows = true :=
+      concat_all_present m0 rest r h htx m0 (by simp) (hnd m0 (by simp)) (hwf m0 (by simp)).1.2.1 t ht
+    have hr : has t r.rows = true := by
+      have hcopy := h
+      simp only [concatenate] at hcopy
+      split at hcopy
+      · cases hcopy
+      · next st hst =>
+        simp only [Except.ok.injEq] at hcopy
+        subst hcopy
+        exact concatLoop_has _ _ _ t _ _ _ _ hst hnd (Or.inr ⟨m0, by simp, h0⟩)
+    have hrows := concat_rows _ r h hnd t
+    simp only [has_eq, Option.isSome_iff_exists] at hr
+    obtain ⟨x, hx⟩ := hr
+    simp only [rowOf, hx, Option.getD_some] at hrows
+    rw [hx, hrows]
+    rfl
+  · simp only [ht, if_false]
+    have hw := concat_wf m0 rest r h hwf
+    apply get?_of_not_mem
+    intro hk
+    exact ht ((concat_taxa m0 rest r h).1 ▸ hw.2.1 t hk)
+
+/-- (e) "leaves its argument matrices unchanged", for the one observation `concatenate` makes that could write:
+    `cm[0]` (`__getitem__`, which creates a missing row).  For a matrix that passes the guards and whose rows are a dict
+    over the (duplicate-free) namespace, the first taxon has a row, so the probe returns that row and the matrix as it was -/
+theorem concat_probe_pure (ns : Nat) (t0 : Taxon) (tl : List Taxon) (n : Nat) (cm : Matrix)
+    (hc : Concatenable ns (t0 :: tl) n cm) (hnd : (keys cm.rows).Nodup)
+    (hin : ∀ k ∈ keys cm.rows, k ∈ t0 :: tl) :
+    getItem cm t0 = .ok (cm, rowOf t0 cm.rows) := by
+  have hlen : (t0 :: tl).length ≤ (keys cm.rows).length := by simp [keys, hc.2.1]
+  have hmem : t0 ∈ keys cm.rows := subset_of_nodup_length (keys cm.rows) (t0 :: tl) hnd hin hlen t0 (by simp)
+  have hhas := has_of_mem_keys t0 cm.rows hmem
+  simp only [has_eq, Option.isSome_iff_exists] at hhas
+  obtain ⟨x, hx⟩ := hhas
+  simp [getItem, hx, rowOf]
+
+/-- … hence a successful `concatenate` of well-formed matrices over one namespace changed none of its arguments through
+    its probes -/
+theorem concat_probes_pure (m0 : Matrix) (rest : List Matrix) (r : Matrix) (h : concatenate (m0 :: rest) = .ok r)
+    (hwf : ∀ m ∈ m0 :: rest, WF m ∧ m.taxa = m0.taxa) (t0 : Taxon) (tl : List Taxon) (htx : m0.taxa = t0 :: tl)
+    (m : Matrix) (hm : m ∈ m0 :: rest) : getItem m t0 = .ok (m, rowOf t0 m.rows) := by
+  have hc := (concat_ok_iff m0 rest (by rw [htx]; simp)).mp ⟨r, h⟩ m hm
+  rw [htx] at hc
+  exact concat_probe_pure m0.ns t0 tl m0.rows.length m hc (hwf m hm).1.1
+    (fun k hk => by rw [← htx, ← (hwf m hm).2]; exact (hwf m hm).1.2.1 k hk)
+
+end DendroModel.C19
+
+namespace DendroModel.C19.Aux
+open DendroModel.C19
+theorem ex_wf_pair : ∀ m ∈ [mA, mB], WF m ∧ m.taxa = mA.taxa := by
+  intro m hm
+  simp only [List.mem_cons, List.not_mem_nil, or_false] at hm
+  rcases hm with rfl | rfl <;> (unfold WF; decide)
+example : get? 1 mAB.rows = some [3, 4, 5] := by
+  have := concat_get? mA [mB] mAB ex_concat ex_wf_pair (by decide) 1
+  simpa [mA, mB, rowOf, get?] using this
+example : get? 7 mAB.rows = none := by
+  have := concat_get? mA [mB] mAB ex_concat ex_wf_pair (by decide) 7
+  simpa [mA] using this
+example : getItem mB 0 = .ok (mB, [6]) :=
+  concat_probes_pure mA [mB] mAB ex_concat ex_wf_pair 0 [1] rfl mB (by simp)
+end DendroModel.C19.Aux
+
+/-! ### the history object: well-formedness along every sequence of operations, as ONE theorem -/
+namespace DendroModel.C19
+
+/-- well-formed including the namespace itself: `WF` plus duplicate-free namespace members — every hypothesis the
+    specifications of this file use about a single matrix -/
+def WFN (m : Matrix) : Prop := WF m ∧ m.taxa.Nodup
+
+/-- what a history must satisfy about the OTHER matrices it mentions: they are well-formed and see the same namespace
+    members as the matrix the history runs on.  (The model's guards compare only the namespace identity `ns`; that the
+    same identity means the same member list is an invariant of the protocol — the driver refuses input that breaks it.) -/
+def OpOK (taxa : List Taxon) : Op → Prop
+  | .add o | .replace o | .update o | .extend _ o | .extendMatrix o => WF o ∧ o.taxa = taxa
+  | _ => True
+
+/-- one call keeps the namespace and well-formedness -/
+theorem step_wfn (m : Matrix) (op : Op) (hm : WFN m) (hop : OpOK m.taxa op) :
+    WFN (step m op) ∧ (step m op).taxa = m.taxa ∧ (step m op).ns = m.ns := by
+  obtain ⟨hwf, hnd⟩ := hm
+  have key : ∀ r : Matrix, WF r → r.taxa = m.taxa → r.ns = m.ns → WFN r ∧ r.taxa = m.taxa ∧ r.ns = m.ns :=
+    fun r h1 h2 h3 => ⟨⟨h1, h2 ▸ hnd⟩, h2, h3⟩
+  have self : WFN m ∧ m.taxa = m.taxa ∧ m.ns = m.ns := ⟨⟨hwf, hnd⟩, rfl, rfl⟩
+  have binary : ∀ (f : Rows → Rows → Rows) (o : Matrix),
+      f ∈ [addSeqs, replaceSeqs, updateSeqs, extendSeqs false, extendSeqs true, extendMatrix] →
+      WF o ∧ o.taxa = m.taxa →
+      WFN (orSelf m (rowOp f m o)) ∧ (orSelf m (rowOp f m o)).taxa = m.taxa ∧ (orSelf m (rowOp f m o)).ns = m.ns := by
+    intro f o hf ho
+    cases hr : rowOp f m o with
+    | error e => simpa [orSelf] using self
+    | ok r =>
+      have hw := (wf_preserved m o hwf ho.1 ho.2).1 f hf r hr
+      rcases rowOp_spec f m o with ⟨_, r', hr', _, hns, htx, _⟩ | ⟨_, he⟩
+      · rw [hr'] at hr; simp only [Except.ok.injEq] at hr; subst hr
+        simpa [orSelf] using key r' hw htx hns
+      · rw [he] at hr; cases hr
+  have W := wf_preserved m m hwf hwf rfl
+  cases op with
+  | add o => exact binary addSeqs o (by simp) hop
+  | replace o => exact binary replaceSeqs o (by simp) hop
+  | update o => exact binary updateSeqs o (by simp) hop
+  | extend b o => cases b <;> exact binary _ o (by simp) hop
+  | extendMatrix o => exact binary extendMatrix o (by simp) hop
+  | remove taxa => exact key _ (W.2.1 taxa).1 rfl rfl
+  | discard taxa => exact key _ (W.2.1 taxa).2.1 rfl rfl
+  | keep taxa => exact key _ (W.2.1 taxa).2.2 rfl rfl
+  | fill v size app => exact key _ (W.2.2.1 v size app).1 rfl rfl
+  | fillTaxa => exact key _ W.2.2.2.1 rfl rfl
+  | pack v size app => exact key _ (W.2.2.1 v size app).2 rfl rfl
+  | newSubset lab idx =>
+    simp only [step]
+    cases hr : newSubset m lab idx with
+    | error e => simpa [orSelf] using self
+    | ok r =>
+      have hw := W.2.2.2.2.2.1 lab idx r hr
+      rcases newSubset_spec m lab idx with ⟨_, he⟩ | ⟨_, r', hr', _, _, hns, htx, _⟩
+      · rw [he] at hr; cases hr
+      · rw [hr'] at hr; simp only [Except.ok.injEq] at hr; subst hr
+        simpa [orSelf] using key r' hw htx hns
+  | getItem t =>
+    simp only [step]
+    cases hr : getItem m t with
+    | error e => simpa using self
+    | ok p =>
+      obtain ⟨m', r⟩ := p
+      have hw := W.2.2.2.2.2.2.1 t m' r hr
+      rcases getItem_spec m t with ⟨r0, _, he⟩ | ⟨_, _, m1, he, _, _, _, hns, htx⟩ | ⟨_, _, he⟩
+      · rw [he] at hr; simp only [Except.ok.injEq, Prod.mk.injEq] at hr
+        rw [← hr.1]; simpa using self
+      · rw [he] at hr; simp only [Except.ok.injEq, Prod.mk.injEq] at hr
+        obtain ⟨rfl, _⟩ := hr
+        simpa using key m1 hw htx hns
+      · rw [he] at hr; cases hr
+  | setItem t row =>
+    simp only [step]
+    cases hr : setItem m t row with
+    | error e => simpa [orSelf] using self
+    | ok r =>
+      have hw := W.2.2.2.2.2.2.2.1 t row r hr
+      simp only [setItem] at hr
+      split at hr
+      · simp only [Except.ok.injEq] at hr; subst hr; simpa [orSelf] using key _ hw rfl rfl
+      · cases hr
+  | newSequence t row =>
+    simp only [step]
+    cases hr : newSequence m t row with
+    | error e => simpa [orSelf] using self
+    | ok r =>
+      have hw := W.2.2.2.2.2.2.2.2.1 t row r hr
+      simp only [newSequence] at hr
+      split at hr
+      · cases hr
+      · split at hr
+        · simp only [Except.ok.injEq] at hr; subst hr; simpa [orSelf] using key _ hw rfl rfl
+        · cases hr
+  | delItem t =>
+    simp only [step]
+    cases hr : delItem m t with
+    | error e => simpa [orSelf] using self
+    | ok r =>
+      have hw := W.2.2.2.2.2.2.2.2.2.1 t r hr
+      simp only [delItem] at hr
+      split at hr
+      · simp only [Except.ok.injEq] at hr; subst hr; simpa [orSelf] using key _ hw rfl rfl
+      · cases hr
+  | clear => exact key _ W.2.2.2.2.2.2.2.2.2.2 rfl rfl
+
+/-- "for all sequences of these operations": along ANY history — whatever mixture of successful, refused and
+    half-finished calls — the matrix stays well-formed over the same duplicate-free namespace, so every specification of
+    this file applies to every intermediate state -/
+theorem history_wfn (ops : List Op) (m : Matrix) (hm : WFN m) (hops : ∀ op ∈ ops, OpOK m.taxa op) :
+    WFN (run m ops) ∧ (run m ops).taxa = m.taxa ∧ (run m ops).ns = m.ns := by
+  induction ops generalizing m with
+  | nil => exact ⟨hm, rfl, rfl⟩
+  | cons op rest ih =>
+    have h1 := step_wfn m op hm (hops op (by simp))
+    have h2 := ih (step m op) h1.1 (fun o ho => by rw [h1.2.1]; exact hops o (by simp [ho]))
+    simp only [run, List.foldl_cons] at h2 ⊢
+    exact ⟨h2.1, h2.2.1.trans h1.2.1, h2.2.2.trans h1.2.2⟩
+
+end DendroModel.C19
+
+namespace DendroModel.C19.Aux
+open DendroModel.C19
+example : WFN mA ∧ ∀ op ∈ [Op.extend true mB, .getItem 7, .remove [1, 1], .fillTaxa, .newSubset ['s'] [2, 0], .add mB],
+    OpOK mA.taxa op := by
+  refine ⟨⟨by unfold WF; decide, by decide⟩, ?_⟩
+  intro op hop
+  simp only [List.mem_cons, List.not_mem_nil, or_false] at hop
+  rcases hop with rfl | rfl | rfl | rfl | rfl | rfl <;> simp only [OpOK] <;> first | trivial | (unfold WF; decide)
+example : (run mA [.extend true mB, .getItem 7, .remove [1, 1], .fillTaxa]).rows = [(0, [1, 2, 6]), (1, [])] := by decide
+end DendroModel.C19.Aux
+
+/-! ### `concatenate_from_streams` over the shared namespace that grows while streams are read -/
+namespace DendroModel.C19.Aux
+open DendroModel.C19
+
+/-- the namespace after all streams were read -/
+def finalTaxa (taxa : List Taxon) (ps : List Parsed) : List Taxon := ps.foldl (fun t p => growTaxa t p.rows) taxa
+
+theorem readLoopNS_ok {σ : Type} (parse : σ → Option Parsed) (streams : List σ) (ps : List Parsed)
+    (h : streams.map parse = ps.map some) (taxa : List Taxon) (acc : List Parsed) (i : Nat) :
+    readLoopNS parse taxa acc i streams = .ok (finalTaxa taxa ps, acc ++ ps) := by
+  induction streams generalizing ps taxa acc i with
+  | nil =>
+    cases ps with
+    | nil => simp [readLoopNS, finalTaxa]
+    | cons a as => simp at h
+  | cons s ss ih =>
+    cases ps with
+    | nil => simp at h
+    | cons a as =>
+      simp only [List.map_cons, List.cons.injEq] at h
+      simp only [readLoopNS, h.1]
+      rw [ih as h.2]
+      simp [finalTaxa]
+
+end DendroModel.C19.Aux
+
+namespace DendroModel.C19
+open DendroModel.C19.Aux
+
+/-- with ONE namespace shared by all streams, `concatenate_from_streams` is `concatenate` of the matrices read, each
+    seen over the namespace as it is AFTER the last stream was read -/
+theorem fromStreamsNS_eq {σ : Type} (ns : Nat) (parse : σ → Option Parsed) (streams : List σ) (ps : List Parsed)
+    (h : streams.map parse = ps.map some) :
+    concatFromStreamsNS ns parse streams = match concatenate (ps.map (asMatrix ns (finalTaxa [] ps))) with
+      | .ok r => .ok r
+      | .error e => .error (.concat e) := by
+  simp only [concatFromStreamsNS, readLoopNS_ok parse streams ps h [] [] 0, List.nil_append]
+  cases concatenate (ps.map (asMatrix ns (finalTaxa [] ps))) <;> rfl
+
+/-- the consequence the stateless reader cannot show: if ANY stream lacks a taxon that some stream (earlier or later)
+    introduced — its row count differs from the size of the final namespace — the whole call is refused with `ValueError`
+    ("Number of sequences not equal to the number of taxa"), even though each stream alone is a fine matrix -/
+theorem fromStreamsNS_incomplete_refused {σ : Type} (ns : Nat) (parse : σ → Option Parsed) (streams : List σ)
+    (ps : List Parsed) (h : streams.map parse = ps.map some) (p : Parsed) (hp : p ∈ ps)
+    (hlen : p.rows.length ≠ (finalTaxa [] ps).length) (hne : finalTaxa [] ps ≠ []) :
+    concatFromStreamsNS ns parse streams = .error (.concat .valueError) := by
+  rw [fromStreamsNS_eq ns parse streams ps h]
+  cases ps with
+  | nil => cases hp
+  | cons p0 rest =>
+    have hres : ∀ r, concatenate ((p0 :: rest).map (asMatrix ns (finalTaxa [] (p0 :: rest)))) ≠ .ok r := by
+      intro r hr
+      have := (concat_ok_iff (asMatrix ns (finalTaxa [] (p0 :: rest)) p0)
+        (rest.map (asMatrix ns (finalTaxa [] (p0 :: rest)))) (by simpa [asMatrix] using hne)).mp ⟨r, by simpa using hr⟩
+        (asMatrix ns (finalTaxa [] (p0 :: rest)) p) (by
+          simp only [List.mem_cons, List.mem_map] at hp ⊢
+          rcases hp with hp | hp
+          · left; rw [hp]
+          · right; exact ⟨p, hp, rfl⟩)
+      exact hlen (by simpa [asMatrix] using this.2.1)
+    cases hc : concatenate ((p0 :: rest).map (asMatrix ns (finalTaxa [] (p0 :: rest)))) with
+    | ok r => exact absurd hc (hres r)
+    | error e =>
+      have := concat_error_kind (asMatrix ns (finalTaxa [] (p0 :: rest)) p0)
+        (rest.map (asMatrix ns (finalTaxa [] (p0 :: rest)))) (by simpa [asMatrix] using hne) e (by simpa using hc)
+      simp [this]
+
+end DendroModel.C19
+
+namespace DendroModel.C19.Aux
+open DendroModel.C19
+def pA : Parsed := { label := none, rows := [(0, [1, 2]), (1, [3, 4])] }
+def pC : Parsed := { label := none, rows := [(0, [5]), (2, [6])] }
+example : finalTaxa [] [pA, pC] = [0, 1, 2] ∧ pA.rows.length ≠ (finalTaxa [] [pA, pC]).length := by decide
+example : concatFromStreamsNS 0 (fun o : Option Parsed => o) [some pA, some pC] = .error (.concat .valueError) :=
+  fromStreamsNS_incomplete_refused 0 _ _ [pA, pC] rfl pA (by simp) (by decide) (by decide)
 end DendroModel.C19.Aux
